@@ -10,6 +10,7 @@ inductive Restriction
   | datatype (d : String)        -- `sh:dataType` (sheXer's spelling)
   | node (shapeIri : String)
   | inValue (c : String)         -- `sh:in ( c )`
+  | anyOf (tys : List String)    -- `sh:or ( [r₁] [r₂] … )`: one anonymous shape per alternative of a disjunction, `rᵢ` = `restrictionOf tyᵢ`
 deriving DecidableEq, Repr
 
 structure PropShape where
@@ -29,7 +30,7 @@ deriving DecidableEq, Repr
 /-- `_generate_shape_uri`: `%<iri>` ↦ `iri` (anything else is an error in the code) -/
 def shapeIri (name : String) : String := ((name.drop 2).dropEnd 1).toString
 
-/-- `_add_node_type` -/
+/-- `_add_single_node_type` (one plain constraint, or one alternative of a disjunction) -/
 def restrictionOf (ty : String) : Restriction :=
   match Gen.MACRO_MAPPING.lookup ty with
   | some (some k) => Restriction.nodeKind k
@@ -45,7 +46,7 @@ def propShapeOf (cfg : Config) (s : Stmt) : PropShape :=
     { inverse := s.inverse, path := s.prop, restr := Restriction.inValue s.ty,
       min := Gen.min_occurs_from_cardinality s.card, max := Gen.max_occurs_from_cardinality s.card }
   else
-    { inverse := s.inverse, path := s.prop, restr := restrictionOf s.ty,
+    { inverse := s.inverse, path := s.prop, restr := if s.choice then Restriction.anyOf s.types else restrictionOf s.ty,
       min := Gen.min_occurs_from_cardinality s.card, max := Gen.max_occurs_from_cardinality s.card }
 
 def emit (cfg : Config) (shapes : List Shape) : List NodeShape :=
